@@ -126,10 +126,17 @@ def driver_lines(scn, trace, repaired):
     return out
 
 
+DRV = None     # private copy of the compiled driver (the lake build directory is shared with other checks)
+
+
+def drv():
+    return str(DRV) if DRV else str(C.driver_path(DRIVER))
+
+
 def run_driver(inputs, timeout=600):
     """inputs: list of line lists (one per run) -> list of output line lists"""
     flat = [l for x in inputs for l in x]
-    p = subprocess.run([str(C.driver_path(DRIVER))], input="\n".join(flat) + "\n", timeout=timeout,
+    p = subprocess.run([drv()], input="\n".join(flat) + "\n", timeout=timeout,
                        stdout=subprocess.PIPE, stderr=subprocess.PIPE, text=True, errors="replace")
     res, cur = [], None
     for l in p.stdout.splitlines():
@@ -325,7 +332,8 @@ _EXE = None
 
 
 def batch(args):
-    exe, scn_key, specs, repaired, want_enabled = args
+    global DRV
+    exe, scn_key, specs, repaired, want_enabled, DRV = args
     scn = SCN_CACHE[scn_key] if scn_key in SCN_CACHE else parse_request("run " + scn_key)[0]
     reqs = [scn.request(pol, seed, bound, prefix) for (pol, seed, bound, prefix) in specs]
     traces, err = run_requests(exe, reqs)
@@ -406,7 +414,7 @@ def explore(ctx, exe, pool, repaired, stats, on_result):
     def submit(scn, specs, want_enabled=False, chunk=60):
         SCN_CACHE[scn.key()] = scn
         for i in range(0, len(specs), chunk):
-            jobs.append((scn, pool.submit(batch, (str(exe), scn.key(), specs[i:i + chunk], repaired, want_enabled)), want_enabled))
+            jobs.append((scn, pool.submit(batch, (str(exe), scn.key(), specs[i:i + chunk], repaired, want_enabled, DRV)), want_enabled))
 
     # corpus: exact replays of past failures
     for h in C.load_corpus(ctx.prop):
@@ -479,6 +487,35 @@ def explore(ctx, exe, pool, repaired, stats, on_result):
     jobs.clear()
 
 
+# ---- exhaustive exploration of the MODEL (micro-step granularity; a test of small configurations) -------------
+def explore_cfgs(quick):
+    small = [("q=1 min=0 max=3 lazy=0 tick=0 sp=0", "s0:11:5 r0", 400000),
+             ("q=1 min=0 max=3 lazy=1 tick=0 sp=1", "s0:11:5 a0 j0 q0", 400000),
+             ("q=2 min=0 max=3 lazy=0 tick=1100 sp=0", "S0:11:5 J0 s1:12:6 r1", 1500000),
+             ("q=1 min=0 max=3 lazy=0 tick=0 sp=0", "s0:11:5 s1:12:6 j0 j1", 1500000)]
+    big = [("q=1 min=0 max=3 lazy=0 tick=0 sp=0", "s0:11:5 | s1:21:6", 4000000),
+           ("q=1 min=1 max=3 lazy=0 tick=1100 sp=0", "s0:11:5 s1:12:6 s0:13:7 j0 j1", 4000000),
+           ("q=2 min=0 max=3 lazy=1 tick=0 sp=1", "s0:11:5 d0 | S1:21:6", 4000000)]
+    return small if quick else small + big
+
+
+def explore_one(args):
+    global DRV
+    cfg, scripts, cap, rep, DRV = args
+    line = f"X {cap} {cfg} rep={rep} | {scripts}"
+    t = time.time()
+    try:
+        p = subprocess.run([drv()], input=line + "\n", timeout=900, stdout=subprocess.PIPE, stderr=subprocess.PIPE, text=True)
+        out = p.stdout.strip().splitlines()[-1] if p.stdout.strip() else "X lost " + p.stderr[-200:]
+    except subprocess.TimeoutExpired:
+        out = "X timeout"
+    kv = dict(x.split("=", 1) for x in out.split()[1:] if "=" in x)
+    return {"config": f"{cfg} | {scripts}", "repaired": rep, "states": int(kv.get("states", 0)), "transitions": int(kv.get("transitions", 0)),
+            "terminal": int(kv.get("terminal", 0)), "deadlocks": int(kv.get("deadlocks", -1)), "faults": int(kv.get("faults", -1)),
+            "double": int(kv.get("double", -1)), "exhausted": kv.get("truncated") == "0", "first_bad": kv.get("first-bad"),
+            "schedule": kv.get("schedule", "")[:2000], "wall_s": round(time.time() - t, 1), "raw": out[:200]}
+
+
 ASSUMPTIONS = [
     "sequentially consistent atomics (the controlled scheduler and the model interleave whole atomic operations; weak-memory effects on the plain volatile reads are outside)",
     "scheduling points of the implementation run are the atomic operations and POSIX calls (plain volatile reads happen together with the preceding scheduling point); the Lean theorems quantify over the finer interleaving of every single shared access",
@@ -494,6 +531,10 @@ def check(ctx):
     exe = build(ctx)
     if exe is None or not C.driver_path(DRIVER).exists():
         return
+    global DRV
+    import shutil
+    DRV = C.BUILD / f"drv_future_{os.getpid()}"
+    shutil.copy2(C.driver_path(DRIVER), DRV)
     repaired = True
     stats = {"corpus": 0, "runs": 0, "steps": 0, "verdicts": {}, "diffs": 0, "classes": {}, "ops": {}, "maxthreads": 0, "exhaustive_sampled": False}
     found = {}       # signature -> (steps, scn, r)
@@ -523,14 +564,19 @@ def check(ctx):
         elif r["diff"]:
             stats["diffs_with_violation"] = stats.get("diffs_with_violation", 0) + 1
 
+    xres = []
     try:
         with cf.ProcessPoolExecutor(C.NCPU) as pool:
+            xf = [pool.submit(explore_one, (c, sc, cap, 1, DRV)) for c, sc, cap in explore_cfgs(ctx.tier == "quick")]
+            xf.append(pool.submit(explore_one, ("q=1 min=0 max=3 lazy=0 tick=0 sp=0", "s0:11:5 s1:12:6 j0 j1", 1500000, 0, DRV)))
             explore(ctx, exe, pool, repaired, stats, on_result)
+            xres = [f.result() for f in xf]
     finally:
-        try:
-            exe.unlink()
-        except OSError:
-            pass
+        for f in (exe, DRV):
+            try:
+                f.unlink()
+            except OSError:
+                pass
     ctx.cov["evaluations"] = stats["steps"]
     ctx.cov["traces_validated_against_impl"] = stats["runs"]
     ctx.cov["distinct_nontrivial"] = len(distinct)
@@ -547,6 +593,13 @@ def check(ctx):
                        "and of generated scenarios (1-3 clients, 1-3 futures each, start/join/result/abort/query/destroy, queue 1..8, min 0..2, max 3..4, lazy pool, clock ticks, "
                        "spurious wake-ups); evaluations = scheduler steps replayed on the model; distinct_nontrivial = distinct (scenario, step count, final summary, op histogram) of runs with >= 20 steps")
     ctx.cov["open_statements"] = OPEN_STATEMENTS
+    ctx.cov["model_exploration"] = xres
+    for x in xres:
+        if x["repaired"] == 1 and (x["deadlocks"] != 0 or x["faults"] != 0 or x["double"] != 0):
+            ctx.broken.append(f"exhaustive exploration of the Lean model (repaired code) found {x['first_bad']} in {x['config']}: schedule {x['schedule'][:300]}")
+        if x["repaired"] == 0 and x["deadlocks"] == 0:
+            ctx.notes.append("sanity: the explorer no longer finds the D17 deadlock in the model of the ORIGINAL code")
+    ctx.log("model exploration: " + "; ".join(f"{x['states']} states{'' if x['exhausted'] else ' (capped)'} dl={x['deadlocks']} rep={x['repaired']}" for x in xres))
     ctx.log(f"{stats['runs']} runs, {stats['steps']} scheduler steps, verdicts {stats['verdicts']}, violation classes {stats['classes']}, model diffs {stats['diffs']}")
     for sig, (steps, scn, r) in sorted(found.items()):
         txt = exact_request(scn, r) + "\n# schedule found as: " + r["req"][:400] + "\n# " + " ; ".join(f"{c}: {m}" for c, m in r["bad"]) + "\n# " + r["fin"] + "\n"
